@@ -270,6 +270,14 @@ func (idx *IVFIndex) Add(vector VectorNode) error {
 		return err
 	}
 
+	// Re-adding a soft-deleted ID: purge the stale entry first, otherwise the
+	// pending delete would hide (and the next Flush would drop) the new vector
+	if idx.deletedNodes.Contains(vector.ID()) {
+		if err := idx.flushLocked(); err != nil {
+			return err
+		}
+	}
+
 	// Find the nearest centroid (call utility directly since we already hold write lock)
 	nearestCentroidIdx := FindNearestCentroidIndex(vector.Vector(), idx.centroids, idx.distance)
 
@@ -363,6 +371,13 @@ func (idx *IVFIndex) Flush() error {
 	idx.mu.Lock()
 	defer idx.mu.Unlock()
 
+	return idx.flushLocked()
+}
+
+// flushLocked is the body of Flush: it hard deletes all soft-deleted vectors.
+//
+// CONCURRENCY: This is an internal helper method. The caller MUST hold the write lock.
+func (idx *IVFIndex) flushLocked() error {
 	// Quick exit if nothing to flush
 	deletedCount := int(idx.deletedNodes.GetCardinality())
 	if deletedCount == 0 {
